@@ -275,6 +275,26 @@ add("C20", True, "exploration",
     "are emptied before each case so that cases are independent.",
     "DESIGN.md section 5, C20")
 
+add("C18", True, "exploration",
+    "Hypothesis-generated calls of every context-wrapped method in every "
+    "passing style + model-based context-block histories, oracle = reference "
+    "resolver, destination table and wire-level passing-style invariance",
+    "Every method wrapped by use_contextual_arguments (found by "
+    "introspection; a method without a recipe fails the run) is called with "
+    "each contextual argument passed positionally, by keyword, by an "
+    "enclosing context or left to its default, under outer decoy contexts "
+    "and unrelated context entries; the datagrams seen by the simulated "
+    "machine / BMPs must carry the resolved chip, core, application id and "
+    "use the right connection, a call lacking a required argument must raise "
+    "TypeError with nothing sent, and the wire must be identical to the same "
+    "call with everything explicit. Histories of nested plain and "
+    "application blocks, updates and exits by exception check restoration "
+    "and the stop signal; discovered connections are checked against the "
+    "board tile.",
+    "Trusted: vf/sim/scamp.py, vf/sim/bmp.py, vf/oracle/boardtile.py, the "
+    "destination table in vf/props/c18.py.",
+    "DESIGN.md section 5, C18")
+
 
 def main():
     checks = []
